@@ -120,7 +120,8 @@ Record observed := {
   o_types : list valuetype;
   o_nsamples : nat;
   o_reports : list (Z * list (string * Z * Z));   (* per column: total, entries (name, flat, cum) *)
-  o_reports2 : list (Z * list (string * Z * Z))   (* the same after -proto and reopening *)
+  o_reports2 : list (Z * list (string * Z * Z))   (* the same after -proto and reopening *);
+  o_frames : list (Z * list string * list string) (* every frame of the merged samples: address, function names, files *)
 }.
 
 Definition entry_of (r : list (string * Z * Z)) (e : string) : Z * Z :=
@@ -249,6 +250,16 @@ Section Check.
      -diff_base: the base total, so the same percentages) and the same entries *)
   Definition diff_base_roundtrip (o : observed) : bool := reports_eqb (o_reports o) (o_reports2 o).
 
+  (* values are aligned, never re-attributed: every frame of the combined profile (address, the
+     functions on its lines, the source file of each) is a frame of one of the inputs *)
+  Definition frames_from_inputs (o : observed) : bool :=
+    forallb (fun fr =>
+      let '(addr, names, files) := fr in
+      existsb (fun p => existsb (fun l => (l_addr l =? addr)
+                                          && list_eqb String.eqb (loc_names p (l_id l)) names
+                                          && list_eqb String.eqb (loc_files p (l_id l)) files) (p_location p)) ps)
+            (o_frames o).
+
   (* None = the run ended in an error *)
   Definition spec_ok (o : option observed) : bool :=
     if spec_compatible uts nm srcs bases then
@@ -260,6 +271,7 @@ Section Check.
           && Nat.eqb (List.length (o_reports o)) (List.length ts)
           && forallb (fun jt => check_column o (fst jt) (snd jt)) (List.combine (seq 0 (List.length ts)) ts)
           && diff_base_roundtrip o
+          && frames_from_inputs o
           && (negb (self_diff && negb db) || Nat.eqb (o_nsamples o) 0)
           && (negb self_diff || forallb (fun r => match snd r with [] => true | _ => false end) (o_reports o))
       end
